@@ -193,6 +193,64 @@ def ident_programs():
 IDENT_ROWS = {"empty": [], "t1": [(1, 2), (0, 3), (None, 4), (5, None)], "t2": [(-1, -1), (2, 2)]}
 
 
+STR_ROWS = {
+    "empty": [],
+    # blanks / tabs / carriage returns directly before a line break, leading blanks after one, a trailing break
+    "t1": [(1, "line one \nline two"), (2, "dos\r\nfile"), (3, "tab\t\nend"), (4, "plain"), (5, None),
+           (6, " lead\n trail \n"), (7, "two  blanks  \n\n  x")],
+    "t2": [(1, "a\nb"), (2, "a \nb"), (3, "a\r\nb"), (4, "")],
+}
+SALES_ROWS = {
+    "empty": [],
+    "t1": [("01", 5), ("01", 7), ("1", 3), ("2", 4), (None, 1), ("002", 9)],
+    "t2": [("1", 5), ("10", 5), ("1.0", 2)],
+}
+
+
+def free_programs():
+    """programs with their own tables: string cells/literals with white space around line breaks (what a purely textual
+    post-processing of the statement would damage), a text column compared with a number and then used
+    type-sensitively above a CTE the optimizer cannot merge away, DataFrames carrying hints"""
+    P = []
+
+    def add(name, fn, tag):
+        P.append({"kind": "free", "name": name, "build": fn, "tag": tag, "mode": "bag", "lim": None, "corpus": False})
+
+    def strs(s, t):
+        return s.createDataFrame(STR_ROWS[t], "id bigint, txt string")
+
+    def sales(s, t):
+        return s.createDataFrame(SALES_ROWS[t], "code string, qty bigint")
+
+    def lr(s, t):
+        from checks import c01 as _c
+        return s.createDataFrame(_c.TABLES[t], _c.SCHEMA), s.createDataFrame(R_TABLES[t], R_SCHEMA)
+
+    add("string-cells-length", lambda s, F, t: strs(s, t).where(F.col("id") >= 1).select("id", "txt", F.length("txt").alias("n")), "string-literal")
+    add("string-literal-column", lambda s, F, t: strs(s, t).select("id", F.lit("a \nb\t\n c\r\n").alias("l")).where(F.col("id") < 4), "string-literal")
+    add("string-literal-compare", lambda s, F, t: strs(s, t).where((F.col("txt") == "dos\r\nfile") | (F.col("txt") == "a \nb")), "string-literal")
+    add("string-cells-groupby", lambda s, F, t: strs(s, t).groupBy("txt").agg(F.count("id").alias("n")), "string-literal")
+    add("string-cells-join", lambda s, F, t: strs(s, t).join(strs(s, t).select(F.col("txt"), F.col("id").alias("id2")), on="txt"), "string-literal")
+    # a column pinned to a literal of ANOTHER type, then used type-sensitively, above agg / distinct / limit / union
+    add("text-eq-int-then-lt-text-after-agg",
+        lambda s, F, t: sales(s, t).groupBy("code").agg(F.sum("qty").alias("total")).where((F.col("code") == 1) & (F.col("code") < "1")), "cross-type-compare")
+    add("text-eq-int-then-length-after-agg",
+        lambda s, F, t: sales(s, t).groupBy("code").agg(F.sum("qty").alias("total")).where(F.col("code") == 1).where(F.length("code") == 2), "cross-type-compare")
+    add("text-eq-int-then-like-after-distinct",
+        lambda s, F, t: sales(s, t).select("code").distinct().where((F.col("code") == 1) & F.col("code").like("0%")), "cross-type-compare")
+    add("int-eq-float-then-cast-after-limit",
+        lambda s, F, t: sales(s, t).orderBy("code", "qty").limit(4).where((F.col("qty") == 5.0) & (F.col("qty").cast("string") == "5")), "cross-type-compare")
+    add("text-eq-int-then-concat-after-union",
+        lambda s, F, t: sales(s, t).select("code").union(sales(s, t).select("code")).where((F.col("code") == 2) & (F.concat(F.col("code"), F.lit("x")) == "2x")), "cross-type-compare")
+    # hints never change a result; the engine dialect has no syntax for them
+    add("hint-broadcast-join", lambda s, F, t: (lambda l, r: l.join(r.hint("broadcast"), "a", "left").select("b", "t"))(*lr(s, t)), "hint")
+    add("repartition-n-then-agg", lambda s, F, t: lr(s, t)[0].repartition(2).groupBy("s").agg(F.count("*").alias("n")), "hint")
+    add("repartition-col-then-where", lambda s, F, t: lr(s, t)[0].repartition("a").where(F.col("b") > 1), "hint")
+    add("coalesce-then-where", lambda s, F, t: lr(s, t)[0].coalesce(1).where(F.col("s").isNull()).select("a"), "hint")
+    add("hint-then-union", lambda s, F, t: (lambda l, r: l.select("a").hint("broadcast").union(r.select("a")))(*lr(s, t)), "hint")
+    return P
+
+
 def build(prog, tname, session, F, steps=None, rows_override=None):
     """-> list of DataFrames, one per user-level step (index 0 = the createDataFrame result)"""
     from checks import c01
@@ -217,6 +275,9 @@ def build(prog, tname, session, F, steps=None, rows_override=None):
             from sqlframe.base import types as T
             d = session.createDataFrame([], T.StructType([T.StructField(c, T.LongType()) for c in prog["cols"]]))
         return [d, prog["build"](d, F)]
+    if prog["kind"] == "free":
+        df = prog["build"](session, F, tname)
+        return [df, df]
     raise ValueError(prog["kind"])
 
 
@@ -485,7 +546,7 @@ class _Stub:
 
 
 def all_programs(stub):
-    progs = chain_programs(stub) + multi_programs() + ident_programs()
+    progs = chain_programs(stub) + multi_programs() + ident_programs() + free_programs()
     from checks import c01
     for i, p in enumerate(progs):
         p["idx"] = i
@@ -1125,6 +1186,7 @@ def run(ctx: core.Ctx):
         "programs": len(progs), "chain_programs": len(chain_progs),
         "multi_input_programs": len([p for p in progs if p["kind"] == "multi"]),
         "identifier_programs": len([p for p in progs if p["kind"] == "ident"]),
+        "string_crosstype_hint_programs": len([p for p in progs if p["kind"] == "free"]),
         "pairs_exported_both": len(exported), "pairs_certified": len(certified),
         "certified_fraction_of_chain_programs": round(len(certified) / max(1, len(chain_progs)), 3),
         "corpus_shapes_must_certify": len(CORPUS),
@@ -1186,7 +1248,7 @@ def replay(ctx: core.Ctx, rp: dict) -> int:
         dfs = build(prog, tname, session, F, rows_override=rows)
         print("program:", [c01.step_str(s) for s in steps], "table:", rows if rows is not None else c01.TABLES[tname])
     else:
-        cands = [p for p in multi_programs() + ident_programs() if p["name"] == r["name"]]
+        cands = [p for p in multi_programs() + ident_programs() + free_programs() if p["name"] == r["name"]]
         if not cands:
             print("unknown program", r.get("name"))
             return 2
